@@ -64,9 +64,45 @@ def facts_at(fn, bb):
         for tgt, facts in targets.items():
             if len(facts) != 1:
                 continue  # two different conditions lead to the same block: nothing known
-            if c.edge_dominates(s, tgt, bb):
+            if c.edge_dominates(s, tgt, bb) and not _stale(fn, c, s, tgt, bb, facts[0]):
                 out.append((s, facts[0]))
     return out
+
+
+def _stale(fn, c, s, tgt, bb, fact):
+    """a fact about a reassignable local no longer describes it at bb when the local can be assigned after the test
+    and reach bb without passing the test again (e.g. a loop variable checked before the loop)"""
+    sy = sym(fn)
+    locs = set()
+    mentions_any(fact, lambda x: x[0] == "l" and (x[1] in sy.multi) and not locs.add(x[1]) and False)
+    if not locs:
+        return False
+    after = None
+    for l in locs:
+        for d in sy.defs.get(l, []):
+            db = d[1]
+            if db == s or db == bb:
+                continue
+            if after is None:
+                after = c.reachable_from(tgt, avoid=[s])
+            if db in after:
+                nxt = fn.succs(db)
+                if any(bb in c.reachable_from(n, avoid=[s]) for n in nxt if n != s) :
+                    return True
+    return False
+
+
+def mentions_any(e, pred):
+    """like sym.mentions, but the result of a call is a value of its own: locals that only occur among the arguments
+    of a call node are not read at the point of the fact"""
+    if isinstance(e, tuple):
+        if e and isinstance(e[0], str):
+            if pred(e):
+                return True
+            if e[0] == "call":
+                return False
+        return any(mentions_any(x, pred) for x in e)
+    return False
 
 
 def decision_facts(fn, bb, depth=0):
@@ -149,3 +185,22 @@ def show_fact(fn, fact):
     if fact[0] == "notin":
         return "%s not in %s" % (sy.show(fact[1]), list(fact[2]))
     return str(fact)
+
+
+def fresh_since(fn, local, from_bb, to_bb):
+    """no assignment to `local` can happen after block from_bb and reach to_bb without passing from_bb again
+    (a value tested at from_bb is still the value used at to_bb)"""
+    sy = sym(fn)
+    c = cfg(fn)
+    start = set()
+    for n in fn.succs(from_bb):
+        start |= c.reachable_from(n, avoid=[from_bb])
+    for d in sy.defs.get(local, []):
+        db = d[1]
+        if db == from_bb or db not in start:
+            continue
+        if db == to_bb:
+            return False
+        if any(to_bb in c.reachable_from(n, avoid=[from_bb]) for n in fn.succs(db)):
+            return False
+    return True
